@@ -363,6 +363,9 @@ func c08API(o opts, g *gen.G, syms *val.Syms, w *emit.Writer, cols []val.Col, cf
 			if len(vals) == 0 && g.Chance(0.9) {
 				vals["tag"] = val.VA(gen.AtomN('s', 1+g.Intn(pool)))
 			}
+			if len(vals) == 0 {
+				explicit = false // Update(model) without field pointers means "every non-default field"
+			}
 			m := db.Make(T, "", vals)
 			var fields []interface{}
 			sent := map[string]val.Val{}
